@@ -91,8 +91,12 @@ def _gen_pairs(rng, spec, nknots):
             # knot-aligned: one or both ends exactly on i/segments (where the library truncates with int())
             seg = nknots - 1
             i, j = sorted(rng.sample(range(seg + 1), 2))
-            fa = i / seg
-            fc = j / seg if rng.random() < 0.5 else rng.uniform(fa + 0.02, 1.0)
+            grid = [x / seg for x in range(seg + 1)]
+            if spec.get("equalize") and rng.random() < 0.5:
+                # the documented knots: normalised cumulative chord length (printed with full precision)
+                grid = [float(x) for x in xr.chord_params(np.array(spec["points"], dtype=float), True)]
+            fa = grid[i]
+            fc = grid[j] if rng.random() < 0.5 else rng.uniform(fa + 0.02, 1.0) if fa < 0.97 else 1.0
         else:
             fa, fc = sorted([rng.random(), rng.random()])
             if fc - fa < 0.02:
@@ -317,7 +321,7 @@ def _judge_lengths(ctx, env, pairs):
         aligned = False
         if kind in ("linear", "spline"):
             seg = len(ref.pts) - 1
-            aligned = any(abs(x * seg - round(x * seg)) < 1e-12 for x in (a, c)) and not full
+            aligned = any(abs(x * seg - round(x * seg)) < 1e-12 or float(np.abs(ref.knots - x).min()) < 1e-12 for x in (a, c)) and not full
         cls = ("full" if full else "knot-aligned" if aligned else "partial") + ("-rev" if rev else "-fwd")
         classes.append(cls)
         ctx.count("pair:" + ("full" if full else "knot-aligned" if aligned else cls))
@@ -421,8 +425,9 @@ def _on_curve_in_order(ctx, env, pts, a, c, tol, mech, what):
     coords.append(cc)
     sign = 1 if cc >= ca else -1
     steps = [sign * (coords[i + 1] - coords[i]) for i in range(len(coords) - 1)]
-    if any(st < -slack for st in steps):
-        ctx.violation(mech + ":out-of-order", f"{_desc(env)}: {what}: curve coordinates {coords} are not monotone from {ca} to {cc}")
+    if any(st < 1e-6 * (hi - lo) for st in steps):
+        # every point lies strictly after its predecessor (a point repeating a vertex, or a reversed list, does not)
+        ctx.violation(mech + ":out-of-order", f"{_desc(env)}: {what}: curve coordinates {coords} do not advance from {ca} to {cc}")
         return False
     return True
 
